@@ -336,6 +336,15 @@ class Calls:
         if isinstance(f, VLambda):
             return self.call_lambda(f, args, kwargs, node, fr)
         if isinstance(f, VOpaque):
+            cr = getattr(f, "callable_ret", None)
+            if cr is not None and not kwargs:
+                try:
+                    keys = tuple(self.key_term(a) for a in args)
+                except Unsupported:
+                    keys = None
+                if keys is not None:
+                    self.note_assumption(f"the callable argument {f.hint} is a pure, deterministic, total function")
+                    return self.mk_sym(cr[0], cr[1], f.hint + "()", keys)
             return VOpaque(f.hint + "()")
         if isinstance(f, VModuleRef) and isinstance(f.module, str):
             return self.call_builtin(VBuiltin(f.module), args, kwargs, node, fr)
